@@ -126,6 +126,7 @@ pub fn step_strategy(reg: Reg, class_c: bool, allow_join: bool) -> impl Strategy
         // long runs reach (sub-band rotation, exhausted retries)
         v.push((1, prop_oneof![4 => 1u16..6, 1 => 40u16..90].prop_map(Step::JoinSilence).boxed()));
         v.push((1, Just(Step::JoinAbp).boxed()));
+        v.push((1, (0u8..5).prop_map(Step::SetCreds).boxed()));
     }
     proptest::strategy::Union::new_weighted(v)
 }
